@@ -10,6 +10,10 @@ import ElvModel.C33.Model
 import ElvProofs.C33.Normal
 import ElvProofs.C33.Ops
 import ElvProofs.C33.Split
+import ElvModel.C33.Styledown
+import ElvProofs.C33.SplitStyled
+import ElvProofs.C33.SdRoundtrip
+import ElvProofs.Lemmas.Utf8.Runes
 open Go C33
 
 /-- example styles and texts for the non-vacuity examples -/
@@ -188,3 +192,101 @@ theorem C33_styleText_normal_partial (t : Text) (ts : List Styling) (h : Normal 
     Normal (styleText t ts) ↔ NoMergedNeighbours ts t := styleText_normal_iff t ts h
 
 example : NoMergedNeighbours [.on .bold] exText ∧ Normal (styleText exText [.on .bold]) := by decide
+
+/-! ## SplitByRune: the styled content law (round 2) -/
+
+/-- `SplitByRune('\n')` keeps every byte with its style when every newline lies in a
+default-style segment: the lines joined with a default-style newline have exactly the
+styled bytes of the text (`C33_split_content` is the unstyled law for any rune and text). -/
+theorem C33_split_styled_content (t : Text) (hnl : ∀ s ∈ t, 10 ∈ s.text → s.style = {}) (ls : List Text)
+    (h : SplitByRune t 10 = some ls) : joinL sepD (ls.map styledBytes) = styledBytes t :=
+  SplitByRune_styled t hnl ls h
+
+example : SplitByRune [⟨exRed, [0x61]⟩, ⟨{}, [10, 0x62]⟩] 10 = some [[⟨exRed, [0x61]⟩], [⟨{}, [0x62]⟩]] := by decide
+
+/-- The normal form is canonical: two normal texts with the same styled bytes are equal. -/
+theorem C33_normal_canonical (a b : Text) (ha : Normal a) (hb : Normal b) (h : styledBytes a = styledBytes b) :
+    a = b := Normal_unique a b ha hb h
+
+example : Normal exText ∧ styledBytes exText = styledBytes exText := by decide
+
+/-! ## styledown: `Render (Derender t defs) = t` (round 2)
+
+`sdRender`/`sdDerender` model `styledown.Render`/`Derender` (ElvModel/C33/Styledown.lean,
+tied by the `sd`/`sdren` ops).  `pd` is the `strings.Fields`/`DecodeRuneInString`/
+`ui.ParseStyling` part of `parseStyleCharDef` (`PdOK`: what is used of it); `wd` the rune
+width function (non-negative, printable ASCII one column — true of `wcwidth.OfRune`
+without overrides, `C34_ofRune_range`). -/
+
+/-- The texts styledown can express: the complement of the three finding classes. -/
+structure C33_SdExpressible (wd : Int → Int) (t : Text) : Prop where
+  /-- not `styledown-invalid-utf8` -/
+  utf8 : ∀ s ∈ t, validUtf8 s.text = true
+  /-- not `styledown-zero-width-char` (a newline is the line separator, not a character of a line) -/
+  width : ∀ s ∈ t, ∀ r ∈ toRunes s.text, r ≠ 10 → wd ((r : Nat) : Int) ≠ 0
+  /-- not `styledown-styled-newline` -/
+  newline : ∀ s ∈ t, 10 ∈ s.text → s.style = {}
+
+/-- The full statement: whenever `Derender` accepts a normal text, `Render` gives the text back. -/
+def C33_full_styledown_roundtrip : Prop :=
+  ∀ (wd : Int → Int) (pd : DefParser), (∀ r, 0 ≤ wd r) → (∀ r : Int, 0x20 ≤ r → r < 0x7f → wd r = 1) → PdOK wd pd →
+    ∀ (t : Text) (defs m : Bytes), Normal t → sdDerender wd pd t defs = .ok m → sdRender wd pd m = .ok t
+
+/-- an example width function: newline and U+0301 are zero-width, everything else one column -/
+def exSdWd : Int → Int := fun r => if r = 10 ∨ r = 0x301 then 0 else 1
+/-- an example definition parser: only `"R red"` is a definition -/
+def exSdPd : DefParser := fun line =>
+  if line = [0x52, 0x20, 0x72, 0x65, 0x64] then some (0x52, exRed) else none
+
+theorem C33_exSd_ok : (∀ r, 0 ≤ exSdWd r) ∧ (∀ r : Int, 0x20 ≤ r → r < 0x7f → exSdWd r = 1) ∧ PdOK exSdWd exSdPd := by
+  refine ⟨fun r => by unfold exSdWd; split <;> omega, fun r h1 h2 => by unfold exSdWd; rw [if_neg (by omega)], ?_⟩
+  constructor
+  · intro line r st h
+    unfold exSdPd at h
+    split at h
+    · simp only [Option.some.injEq, Prod.mk.injEq] at h; rw [← h.1]; decide
+    · simp at h
+  · intro line r st h _
+    unfold exSdPd at h
+    split at h
+    · rename_i hl; rw [hl]; decide
+    · simp at h
+  · decide
+
+/-- It is false for the code as it is — the three finding classes (witnesses in harness/corpus/C33.txt):
+a styled newline comes back unstyled (`[inverse "\n"]` ↦ `"\n\n"` ↦ `[default "\n"]`). -/
+theorem C33_styledown_counterexample : ¬ C33_full_styledown_roundtrip := by
+  intro h
+  have := h exSdWd exSdPd C33_exSd_ok.1 C33_exSd_ok.2.1 C33_exSd_ok.2.2 [⟨{ inverse := true }, [10]⟩] [] [10, 10]
+    (by decide) (by decide)
+  revert this; decide
+
+/-- The other two classes: a zero-width character is accepted by `Derender` and rejected by `Render`;
+an invalid byte comes back as U+FFFD. -/
+theorem C33_styledown_counterexamples :
+    (∃ m, sdDerender exSdWd exSdPd [⟨{}, [0x61, 0xcc, 0x81]⟩] [] = .ok m ∧ sdRender exSdWd exSdPd m ≠ .ok [⟨{}, [0x61, 0xcc, 0x81]⟩]) ∧
+    (∃ m, sdDerender exSdWd exSdPd [⟨{}, [0xff]⟩] [] = .ok m ∧ sdRender exSdWd exSdPd m = .ok [⟨{}, [0xef, 0xbf, 0xbd]⟩]) := by
+  refine ⟨⟨[0x61, 0xcc, 0x81, 10, 0x20, 10, 10] ++ noEolLine ++ [10], by decide, by decide⟩,
+    ⟨[0xff, 10, 0x20, 10, 10] ++ noEolLine ++ [10], by decide, by decide⟩⟩
+
+/-- Outside exactly those three classes the round trip holds: for a normal text of valid UTF-8
+without zero-width characters whose newlines are unstyled, whatever `Derender(t, styleDefs)`
+returns, `Render` turns it back into `t` — for every `styleDefs`, including definitions that
+override builtin characters, unused definitions, and definitions of a builtin style. -/
+theorem C33_styledown_roundtrip_partial (wd : Int → Int) (pd : DefParser) (nn : ∀ r, 0 ≤ wd r)
+    (hascii : ∀ r : Int, 0x20 ≤ r → r < 0x7f → wd r = 1) (hpd : PdOK wd pd)
+    (t : Text) (defs m : Bytes) (ht : Normal t) (hx : C33_SdExpressible wd t)
+    (h : sdDerender wd pd t defs = .ok m) : sdRender wd pd m = .ok t := by
+  refine sd_roundtrip wd nn hascii pd hpd t defs m ht ?_ hx.newline h
+  intro s hs
+  refine ⟨toRunes s.text, ?_, (Go.encodeRunes_toRunes (hx.utf8 s hs)).symm⟩
+  intro r hr
+  exact ⟨C34.toRunes_valid s.text r hr, hx.width s hs r hr⟩
+
+-- non-vacuity: [red "ab", default "c\n世"] with `R red` defined: Derender gives "abc\nRR \n世\n  \n\nno-eol\nR red\n"
+example : Normal [⟨exRed, [0x61, 0x62]⟩, ⟨{}, [0x63, 10, 0xe4, 0xb8, 0x96]⟩] ∧
+    sdDerender exSdWd exSdPd [⟨exRed, [0x61, 0x62]⟩, ⟨{}, [0x63, 10, 0xe4, 0xb8, 0x96]⟩] [0x52, 0x20, 0x72, 0x65, 0x64] =
+      .ok ([0x61, 0x62, 0x63, 10, 0x52, 0x52, 0x20, 10, 0xe4, 0xb8, 0x96, 10, 0x20, 10, 10] ++ noEolLine ++
+        [10, 0x52, 0x20, 0x72, 0x65, 0x64, 10]) := by decide
+example : C33_SdExpressible exSdWd [⟨exRed, [0x61, 0x62]⟩, ⟨{}, [0x63, 10, 0xe4, 0xb8, 0x96]⟩] :=
+  ⟨by decide, by decide, by decide⟩
